@@ -6,6 +6,7 @@ import Driver.C19
 import Driver.C08
 import Driver.C16
 import Driver.TA
+import Driver.C10
 
 def main (args : List String) : IO UInt32 :=
   match args with
@@ -17,4 +18,5 @@ def main (args : List String) : IO UInt32 :=
   | ["c08"] => Driver.C08.main
   | ["c16"] => Driver.C16.main
   | ["ta"] => Driver.TA.main
+  | ["c10"] => Driver.C10.main
   | _ => do IO.eprintln "usage: nridrv <property>"; return 2
